@@ -6,7 +6,9 @@ from props.c01 import lit
 
 ARRAYS = [[], [7], [1, 2, 3], ["a", 1, 1.5, True], ["x", "héllo", "日本", ""], [[1, 2], [3]], list(range(10, 22))]
 STRINGS = ["", "a", "abc", "héllo", "日本語", "a\nb", "  x  "]
-HASHES = [{}, {"a": 1}, {"a": 1, "b": "two", "c": 3.5}, {1: "int", "1": "str", 1.5: "flt"}, {2: "two", 10: "ten", "x": [1, 2]}]
+HASHES = [{}, {"a": 1}, {"a": 1, "b": "two", "c": 3.5}, {1: "int", "1": "str", 1.5: "flt"}, {2: "two", 10: "ten", "x": [1, 2]},
+          {1.5: "a", 1.25: "b", 1.75: "c", 1: "one"}, {0.5: "half", 0.25: "quarter", 0: "zero", "0.5": "text"}, {-1.5: "m", -1.25: "n", 2.5: "p", 2.25: "q"},
+          {"ab": 1, "ba": 2, "a": 3, "b": 4, "": 5}, {65535: "x", 65536: "y", 4294967296: "z", -1: "w"}]
 
 def sort_key(k):
     # printed form, ties broken by type name (FLOAT < INTEGER < STRING)
@@ -81,7 +83,7 @@ class C16(Prop):
             for (pn, e, ops, objs) in provs(h, "vh"):
                 for k, v in h.items():
                     out.append(case("return %s[%s];" % (e, lit(k)), enc_value(v), "hash-get-" + pn, ops, objs))
-                for k in ["nokey", 99, 2.5, "1 ", 0]:
+                for k in ["nokey", 99, 2.5, "1 ", 0, 1.125, 0.75, -1.75, 2.75, 1.0, 4294967297, "a ", "A"]:
                     if k not in h or type(k) not in [type(x) for x in h if x == k]:
                         out.append(case("return %s[%s];" % (e, lit(k)), "n", "hash-absent-" + pn, ops, objs))
                 out.append(case("return len(%s);" % e, "i%d" % len(h), "len-" + pn, ops, objs))
